@@ -29,6 +29,8 @@ void use_all(C& c) {
 }'''
 
 cpp2coq.SCHEMA["lfu_cache"] = dict(
+    ctor=True, cells="dl_cells", elem_default="{| dc_keyed := None; dc_lfu := None; dc_age := 0%Z; dc_val := None |}",
+    ctor_const={"dl_tick": "1%Z", "dl_rnum": "1", "dl_rk": "0"},      # lfuda's aging parameters: no member of lfu_cache
     module="GenLfu", requires=["Capp.Base", "Capp.Rr", "Capp.RrLit", "Capp.LruLit", "Capp.LfudaLit"],
     state="lfdl", state_args="K V", elem="dcell", elem_args="K V", cap="dl_cap", inst=INST_LFU, elem_label="list node",
     fields=[("dl_cap", None, "cap"), ("dl_tick", None, "nofield_tick"), ("dl_rnum", None, "nofield_rnum"),
